@@ -410,7 +410,7 @@ theorem validates_addNull (ty : List JT) (cons : Constraints) (items : Option (B
 
 theorem unionSchema_pair (r n : Sch) : unionSchema [r, n] =
     (if [r, n].any Sch.isEmpty then Sch.empty
-     else if [r, n].all Sch.onlyType then .mk (normTypes ([r, n].flatMap Sch.type)) Option.none [] {} Option.none Option.none [] [] Option.none [] [] Option.none
+     else if [r, n].all Sch.onlyType then .mk (normTypes (dedupJT ([r, n].flatMap Sch.type))) Option.none [] {} Option.none Option.none [] [] Option.none [] [] Option.none
      else if [r, n].length == 2 && [r, n].all (fun r => !r.type.isEmpty) && [r, n].any (fun r => r.onlyType && r.type == [.null])
              && [r, n].all Sch.noLits then
        (match [r, n].find? (fun r => !(r.onlyType && r.type == [.null])) with
